@@ -749,7 +749,10 @@ class Element(object):
         :param: report_file: the report file to pass to the validator
         :param: return_errors: return errors and warnings instead of raising
         """
-        return Validator.validate(self, reference=self.reference, report_file=report_file, return_errors=return_errors)
+        # an element of unknown structure (e.g. a parsed message whose MSH-9 names no known structure) has no
+        # reference attribute: let the validator report it instead of leaking an AttributeError
+        reference = getattr(self, 'reference', None)
+        return Validator.validate(self, reference=reference, report_file=report_file, return_errors=return_errors)
 
     def is_z_element(self):
         return False
